@@ -94,3 +94,41 @@ Qed.
 Example C01_plain_example_runs :
   parse (render ex_doc (ex_layout true)) = Ok (flatten ex_doc, true).
 Proof. vm_compute. reflexivity. Qed.
+
+(* stage 3: everything but parameter blocks (`noparam_fields`): in addition to stage 2, mixed
+   containers — objects followed by bare values `{ a=b c d }` and arrays that turn into key-value
+   lists `{ a b c=d e>=f }` — EVERY layout *)
+Theorem C01_parse_render_noparam : forall d l,
+  noparam_fields d = true -> wf_doc d -> wf_layout d l -> parse (render d l) = Ok (flatten d, bom l).
+Proof. exact parse_render_noparam. Qed.
+Print Assumptions C01_parse_render_noparam.
+
+(* non-vacuity:  m={a=1 x "y"} n={p q r!=s t=u}  *)
+Open Scope N_scope.
+Definition ex_mixed : doc :=
+  FCons (Field Unq [109] (Some Equal)
+           (VObject (FCons (Field Unq [97] (Some Equal) (VScalar Unq [49])) FNil)
+                    (VCons (VScalar Unq [120]) (VCons (VScalar Quo [121]) VNil))))
+ (FCons (Field Unq [110] (Some Equal)
+           (VArrayKv (VCons (VScalar Unq [112]) (VCons (VScalar Unq [113]) VNil))
+                     (FCons (Field Unq [114] (Some NotEqual) (VScalar Unq [115]))
+                     (FCons (Field Unq [116] (Some Equal) (VScalar Unq [117])) FNil)))) FNil).
+Definition ex_mixed_layout : layout :=
+  mkLayout false (fun i => nth i [[]; []; []; []; []; []; [32]; [9]; []; [10]; []; []; []; [32]; [32]; []; []; [32]; []; []; []; []] []).
+Open Scope nat_scope.
+
+Example C01_noparam_nonvacuous :
+  noparam_fields ex_mixed = true /\ wf_doc ex_mixed /\ wf_layout ex_mixed ex_mixed_layout.
+Proof.
+  split; [reflexivity|]. split; [reflexivity|]. split; [|split].
+  - intros i. cbn [ex_mixed_layout gap].
+    do 22 (destruct i as [|i]; [apply gap_okb_sound; reflexivity|]). destruct i; constructor.
+  - cbn. repeat split; intros H; try discriminate H; try reflexivity; exact I.
+  - intros _. reflexivity.
+Qed.
+
+Example C01_noparam_example_runs :
+  parse (render ex_mixed ex_mixed_layout) = Ok (flatten ex_mixed, false) /\
+  render ex_mixed ex_mixed_layout =
+  [109;61;123;97;61;49;32;120;9;34;121;34;125;10;110;61;123;112;32;113;32;114;33;61;115;32;116;61;117;125]%N.
+Proof. split; vm_compute; reflexivity. Qed.
